@@ -17,7 +17,11 @@
 (* The expectation is RECOMPUTED here from c alone (both constant sets).   *)
 (* Property monitors (a false monitor on these real results = VIOL):       *)
 (*   GenuineAccepted, IdenticalPublicMaterial            (C08, C09)        *)
+(*   DkgCompletes (records of key generations: the recorded order of       *)
+(*     deliveries is replayed through the model of Sig.tla)   (C08)        *)
 (*   RejectsAltered, SameVerdictTwice, BytesUnchanged    (C09)             *)
+(*   ForgeryRejected (compensated alterations, weak Fiat-Shamir forgeries),*)
+(*   ChallengeBindsInput (oracle sensitivity; v1 = challenge unchanged)    *)
 (* Everything else that differs from the model's prediction is DRIFT.      *)
 (***************************************************************************)
 EXTENDS Sig
@@ -30,13 +34,16 @@ VARIABLE l
 
 Acc(b) == IF b THEN "accept" ELSE "reject"
 
-Genuine(cc) == cc.obj \in {"none", "objsign", "objverify"}
+Genuine(cc) == cc.obj \in {"none", "objsign", "objverify"} \/ (cc.obj = "forge" /\ cc.kind = "control")
 
 Violated(r, m) ==
   LET cc == r.c IN
   (IF Genuine(cc) /\ ~r.v1 THEN {"GenuineAccepted"} ELSE {})
   \cup (IF cc.obj = "none" /\ ~r.pubeq THEN {"IdenticalPublicMaterial"} ELSE {})
-  \cup (IF ~Genuine(cc) /\ r.changed /\ MustReject(cc) /\ r.v1 THEN {"RejectsAltered"} ELSE {})
+  \cup (IF ~Genuine(cc) /\ r.changed /\ MustReject(cc) /\ r.v1
+          THEN {IF cc.obj \in {"mall", "forge"} THEN "ForgeryRejected"              \* a fabricated / malleated proof is accepted
+                ELSE IF cc.obj = "oracle" THEN "ChallengeBindsInput"                \* the challenge ignores a value the oracle lists
+                ELSE "RejectsAltered"} ELSE {})
   \cup (IF r.v2 # r.v1 \/ r.v3 # r.v1 THEN {"SameVerdictTwice"} ELSE {})
   \cup (IF ~r.same THEN {"BytesUnchanged"} ELSE {})
 
@@ -44,7 +51,7 @@ Violated(r, m) ==
 Predicted(mon, cc, m) ==
   CASE mon = "SameVerdictTwice" -> m.v2 # m.v
     [] mon = "BytesUnchanged"   -> ~m.same
-    [] mon = "RejectsAltered"   -> m.v = "accept"
+    [] mon \in {"RejectsAltered", "ForgeryRejected", "ChallengeBindsInput"} -> m.v = "accept"
     [] OTHER -> FALSE
 
 Drifts(r, m) ==
@@ -65,9 +72,35 @@ Report(r, m) ==
                           unbound |-> (MustReject(cc) /\ m.changed /\ m.v = "accept"), real |-> Acc(r.v1),
                           collide |-> m.collide, model |-> m.v])>>)
 
+\* ---- records of key generations (c.sch = "dkg"): c.sched = the deliveries <<kind, from, to>> in the order the driver executed them
+RECURSIVE DkgReplayF(_, _, _, _)
+DkgReplayF(D, sched, k, n) == IF k > Len(sched) THEN [D |-> D, bad |-> 0]
+                              ELSE IF sched[k] \notin D.pool THEN [D |-> D, bad |-> k]          \* the model has not produced this message
+                              ELSE DkgReplayF(DkgDeliver(D, sched[k], n, FALSE), sched, k + 1, n)
+\* pairs (p, r) for which p's public key was delivered to r before p's commitment
+Inversions(sched) == {pr \in {<<sched[k][2], sched[k][3]>> : k \in {x \in 1..Len(sched) : sched[x][1] = 3}} :
+                        \A k3, k2 \in 1..Len(sched) :
+                           (sched[k3] = <<3, pr[1], pr[2]>> /\ sched[k2] = <<2, pr[1], pr[2]>>) => k3 < k2}
+DkgModel(cc) == LET rp == DkgReplayF(DkgInit(cc.n), cc.sched, 1, cc.n) IN
+                [eq |-> IF rp.bad # 0 THEN "not-produced" ELSE IF DkgAllDone(rp.D, cc.n) THEN "ok" ELSE "incomplete",
+                 inv |-> Cardinality(Inversions(cc.sched))]
+\* monitors: every delivery schedule that delivers everything lets every party finish, with identical public material
+ReportDkg(r, m) ==
+  LET cc == r.c
+      vs == (IF m.eq = "ok" /\ ~r.v1 THEN {"DkgCompletes"} ELSE {})
+            \cup (IF r.v1 /\ ~r.pubeq THEN {"IdenticalPublicMaterial"} ELSE {})
+      dr == (IF m.eq = "not-produced" THEN {"the driver delivered a message the model of the key generation has not produced"} ELSE {})
+            \cup (IF m.eq = "incomplete" /\ r.v1 THEN {"every party finished although the model says the schedule is incomplete"} ELSE {})
+            \cup (IF m.eq = "incomplete" /\ ~r.v1 THEN {"incomplete schedule: " \o r.eq} ELSE {})
+  IN PrintT(<<"REC", ToJson([id |-> r.id, sch |-> "dkg", obj |-> "dkg", field |-> cc.back,
+                             kind |-> IF m.inv > 0 THEN "reveal-before-commit" ELSE "in-order", stage |-> r.stage, eq |-> r.eq,
+                             viol |-> vs, predicted |-> {}, drift |-> dr, unbound |-> FALSE, real |-> Acc(r.v1), collide |-> FALSE,
+                             model |-> IF m.eq = "ok" THEN "accept" ELSE "reject"])>>)
+
 TInit == /\ l \in 1..Len(Results)
          /\ c = Results[l].c /\ ph = "todo" /\ res = <<>>
 TNext == /\ ph = "todo" /\ ph' = "done" /\ UNCHANGED <<l, c>>
-         /\ res' = <<Model(c)>>
-         /\ Report(Results[l], res'[1])
+         /\ IF c.sch = "dkg"
+            THEN res' = <<DkgModel(c)>> /\ ReportDkg(Results[l], res'[1])
+            ELSE res' = <<Model(c)>> /\ Report(Results[l], res'[1])
 =============================================================================
